@@ -264,10 +264,14 @@ KNOB_Q = [
     {"cls": "quantized_relu_po2", "kw": {"bits": 4, "negative_slope": 0.25}},
     {"cls": "quantized_hswish", "kw": {"bits": 6, "integer": 2}},
     {"cls": "quantized_linear", "kw": {"bits": 4, "integer": 1}},
+    {"cls": "quantized_linear", "kw": {"bits": 8, "integer": 2,
+                                       "qnoise_factor": 0.5}},
+    {"cls": "quantized_linear", "kw": {"bits": 3, "integer": 0,
+                                       "alpha": "auto"}},
 ]
 ACT_KNOB_Q = [q for q in KNOB_Q if q["cls"] in
               ("quantized_relu", "quantized_relu_po2", "quantized_bits",
-               "quantized_hswish")]
+               "quantized_hswish", "quantized_linear")]
 
 
 def qspec_to_string(qs):
@@ -337,8 +341,7 @@ def model_strategy():
         st.sampled_from(pool), st.booleans())
 
   knob = wq(KNOB_Q)
-  # quantized_linear only rarely: it stops the scheduler (known finding)
-  knob_nolin = wq([q for q in KNOB_Q if q["cls"] != "quantized_linear"])
+  knob_nolin = knob     # quantized_linear takes part like every other class
   nonknob = wq(NONKNOB_Q)
   anyq = st.one_of(st.none(), knob_nolin, knob_nolin, nonknob, knob)
   wgt = st.one_of(st.none(), knob_nolin, knob_nolin, nonknob)
